@@ -64,7 +64,12 @@ class Tmatrix(ScatteringTheory):
         super().__init__()
 
     def can_handle(self, scatterer):
-        return isinstance(scatterer, Sphere) or isinstance(scatterer, Cylinder) \
+        # a layered sphere has one index and one radius per layer: only the
+        # first of each (the core) would reach the compiled code
+        uniform_sphere = (isinstance(scatterer, Sphere)
+                          and np.ndim(scatterer.n) == 0
+                          and np.ndim(scatterer.r) == 0)
+        return uniform_sphere or isinstance(scatterer, Cylinder) \
             or isinstance(scatterer, Spheroid)
 
     # FIXME why is S (scatterer, pos, ...) but fields are (pos, scatterer, ...)?
